@@ -2879,6 +2879,7 @@ void ImproveOrthogonalRoutes::nudgeOrthogonalRoutes(size_t dimension,
                         thisSepDist = 0;
                     }
                     else if (!nudgeSharedPathsWithCommonEnd &&
+                            (currSegment->connRef != prevSeg->connRef) &&
                             (m_shared_path_connectors_with_common_endpoints.count(
                                  UnsignedPair(currSegment->connRef->id(), prevSeg->connRef->id())) > 0))
                     {
